@@ -29,6 +29,8 @@ func parent() {
 		"order of non-commuting operations per lock / atomic / announced variable; plus the running thread) already expanded with at most as many preemptions is not expanded again. " +
 		"Every execution is checked for data races with vector clocks (happens-before over program order, go statements, lock release/acquire, atomics) on the announced variables " +
 		"sigCache.Hash/Sig, Confirmer.lastSig, ChainDatabase.LastConfirm/UnConfirmBlocks, Block.Confirms, Manager.termList/evilDeputies, and for co-enabled conflicting accesses. " +
+		"ChainDatabase.Beansdb is announced as a stand-in for the store's records (writers: setBlock2DB, blockCommit, SetContractCode): it orders store reads and writes in the dependence relation and " +
+		"makes them preemption points where no lock excludes them, but is not reported as a data race (the store synchronises itself). " +
 		"states = distinct decision states expanded, transitions = scheduling steps executed, evaluations = complete schedules executed and checked; " +
 		"distinct outcome = (scenario, per-request results, stable, head, stored blocks with signer sets, lastSig, sigCache validity, black list, pool, confirms / fetch requests / notifications emitted)"
 	r.Assume = []string{
@@ -173,6 +175,10 @@ func parent() {
 			if st.MaxThreads > sum.MaxThreads {
 				sum.MaxThreads = st.MaxThreads
 			}
+			if st.WallS > sum.WallS {
+				sum.WallS = st.WallS
+			}
+			sum.WriterSections = st.WriterSections
 			sum.SeqOrders, sum.SeqOutcomes = st.SeqOrders, st.SeqOutcomes
 			sum.Restarts += st.Restarts
 			sum.Truncated = sum.Truncated || st.Truncated
@@ -196,6 +202,22 @@ func parent() {
 	}
 	r.Extra["per_scenario"] = per
 	r.Extra["preemption_point_classes"] = classes
+	if os.Getenv("VERIF_C19_WRITE_CLASSES") != "" {
+		// refresh the accelerator file from this run (labels only)
+		out := map[string][]string{}
+		for sc, l := range classes {
+			out[sc] = append(out[sc], l...)
+		}
+		for sc, v := range per {
+			for _, w := range v.(*scStats).WriterSections {
+				out[sc] = append(out[sc], "W:"+w)
+			}
+			sort.Strings(out[sc])
+			out[sc] = uniq(out[sc])
+		}
+		b, _ := json.MarshalIndent(out, "", " ")
+		os.WriteFile(classesFile, b, 0644)
+	}
 	r.Extra["determinism_gate"] = map[string]interface{}{"passed": true, "what": "first schedule of every scenario executed twice: identical scheduling trace (threads, operations, sites) and identical outcome; a third run with the inlined goroutines as threads shows that they pass no scheduling point"}
 	r.Extra["race_detector_pass"] = "not part of the verdict: props/c19/race.sh [reps] runs the same scenario bodies free-running under go build -race"
 	// coverage self-check: the announced variables and the engine's goroutines must have been exercised
@@ -251,7 +273,7 @@ func replay() {
 		r := core.NewResult(prop, "model_checking")
 		st := &scStats{Outcomes: map[string]int{}, Threads: map[string]int{}, FinalStates: map[string]bool{}}
 		var in *inst
-		x := sched.RunX(sched.XCfg{Choices: rp.Dev, Watchdog: watchdog, Trace: true, AtomicLoad: atomicLoad}, func(s *sched.Sched) {
+		x := sched.RunX(sched.XCfg{Choices: rp.Dev, Watchdog: watchdog, Trace: true, AtomicLoad: atomicLoad, AccessWrite: storeWrite, NoRace: storeProxy}, func(s *sched.Sched) {
 			var bg []bgTask
 			in, bg = sc.prepare()
 			sc.startThreads(s, in, bg)
